@@ -1367,6 +1367,7 @@ func c08Gen(r *rng, tier string, emit func(string)) {
 			}
 		}
 	}
+	c08rGen(r, tier, emit) // resumption under a changed client-certificate policy (c08resume.go)
 }
 
 // lengths of the plaintext handshake messages of an honest mutually-authenticated handshake, per direction
